@@ -189,6 +189,29 @@ def many_finals(ctx, rng, model):
             check_case(ctx, tl, f, f"many-finals:n{n}:k{k}:{variant}", model)
 
 
+def hub_graph(m, h):
+    """hubs X_1..X_h that each precede every A_i; the A_i are discovered one after another through a back chain
+    A_{i+1} -> C_i -> A_i, so an explicit work stack receives the hubs again in every round and grows to about
+    m*h entries (far more than the number of states) while the first-pushed entries wait at the bottom; U reaches the
+    final state by one direct transition only"""
+    F = 0
+    C = lambda i: i                   # noqa: E731
+    A = lambda i: m + i               # noqa: E731
+    X = lambda j: 2 * m + j           # noqa: E731
+    U = 2 * m + h + 1
+    tl = [[] for _ in range(U + 1)]
+    tl[F].append((1, F))
+    for i in range(1, m + 1):
+        tl[A(i)].append(("to_final", F))
+        tl[C(i)].append(("c", A(i)))
+        if i < m:
+            tl[A(i + 1)].append(("back", C(i)))
+        for j in range(1, h + 1):
+            tl[X(j)].append((1.0 / m, A(i)))
+    tl[U].append(("only", F))
+    return tl, [F]
+
+
 def board_graph(rng, L, W):
     rg = __import__("crlib").repo("roberta_generator")
     moves = [[rng.choice([0, 1, 2, 3]) for _ in range(W)] for _ in range(L)]
@@ -233,6 +256,10 @@ def run(ctx, model=None):
     for (W, L) in boards:
         tl, f = board_graph(rng, L, W)
         check_case(ctx, tl, f, f"board:L{L}xW{W}", model)
+    for (m_, h_) in ((12, 10), (5, 30), (40, 6)) if ctx.quick() else ((12, 10), (5, 30), (40, 6), (100, 20), (8, 200)):
+        tl, f = hub_graph(m_, h_)
+        for fin in (f, f + f, [len(tl) - 1] + f):
+            check_case(ctx, tl, fin, f"many-finals:hub:{m_}x{h_}", model)
     sequences(ctx, rng)
     many_finals(ctx, rng, model)
     deep_callers(ctx)
